@@ -126,9 +126,58 @@ def qmulf(p, q):
             c * e + d * f + a * g - b * h, d * e - c * f + b * g + a * h)
 
 
-summary = {"pairs": 0, "targets": 0, "failed": [], "exist_leaves": 0, "exist_failed": []}
+def gordan4(V, Vf):
+    """exact x >= 0, not all zero, with sum_k x_k V_k = 0 (V: exact 4-vectors, Vf: float rows); None if there is none"""
+    if not V:
+        return None
+    Aeq = np.vstack([np.array(Vf).T, np.ones(len(V))])
+    r = linprog(np.zeros(len(V)), A_eq=Aeq, b_eq=[0, 0, 0, 0, 1], bounds=(0, None), method="highs-ds")
+    if r.status != 0:
+        return None
+    supp = [k for k in range(len(V)) if r.x[k] > 1e-9]
+    import itertools
+    cands = [supp] + [list(c) for n in range(2, min(5, len(supp)) + 1) for c in itertools.combinations(supp, n) if list(c) != supp]
+    for sub in cands:
+        if len(sub) < 2 or len(sub) > 5:
+            continue
+        p0 = sub[0]
+        rest = sub[1:]
+        lam = solve([V[k] for k in rest], qneg(V[p0]))
+        if lam is not None and all(l.sign() >= 0 for l in lam):
+            return [(p0, K(1))] + [(k, l) for k, l in zip(rest, lam) if not l.is_zero()]
+    return "inexact"
+
+
+def uniqueness_certs(s1, s2, N):
+    """for every pair (gl, gr) other than the first: Gordan certificates that the open region cone C = {n.x > 0}
+    meets neither T^-1 C nor -T^-1 C, T x = gl x gr  (adjoint: n.(gl x gr) = (~gl n ~gr).x)"""
+    A = [kq(q) for q in s1.data.reshape(-1, 4)]
+    B = [kq(q) for q in s2.data.reshape(-1, 4)]
+    Nf = [kf(n) for n in N]
+    out = []
+    first = True
+    for gl in A:
+        for gr in B:
+            if first:
+                first = False
+                continue
+            Mx = [qmul(qmul(qconj(gl), n), qconj(gr)) for n in N]
+            pair = []
+            for sgn in (1, -1):
+                V = list(N) + [m if sgn == 1 else qneg(m) for m in Mx]
+                c = gordan4(V, Nf + [kf(v) for v in V[len(N):]])
+                if c is None or c == "inexact":
+                    return None, (gl, gr, sgn, c)
+                pair.append(c)
+            out.append(pair)
+    return out, None
+
+
+summary = {"pairs": 0, "targets": 0, "failed": [], "exist_leaves": 0, "exist_failed": [], "uniq_certs": 0, "uniq_failed": []}
 files = []
-for i1, s1 in enumerate(PROPER):
+def do_group(i1):
+    s1 = PROPER[i1]
+    summary = {"pairs": 0, "targets": 0, "failed": [], "exist_leaves": 0, "exist_failed": [], "uniq_certs": 0, "uniq_failed": []}
     recs = []
     for s2 in PROPER:
         region = OrientationRegion.from_symmetry(s1, s2)
@@ -195,7 +244,12 @@ for i1, s1 in enumerate(PROPER):
         except c07cert.NotADomain as e:
             summary["exist_failed"].append([s1.name, s2.name, [float(x) for x in e.data]])
             ex = None
-        recs.append((s1.name, s2.name, N, D, certs, Nf.tolist(), ex))
+        uq, why = uniqueness_certs(s1, s2, N)
+        if uq is None:
+            summary["uniq_failed"].append([s1.name, s2.name, str(why[3])])
+        else:
+            summary["uniq_certs"] += 2 * len(uq)
+        recs.append((s1.name, s2.name, N, D, certs, Nf.tolist(), ex, uq))
     # ---- emit one Coq file per first group
     fn = f"RegionCerts{i1:02d}.v"
     with open(os.path.join(OUT, fn), "w") as f:
@@ -204,7 +258,7 @@ for i1, s1 in enumerate(PROPER):
         f.write("Import ListNotations. Open Scope string_scope.\n")
         f.write(f"Definition region_certs_{i1:02d} : list region_cert := [\n")
         rows = []
-        for (n1, n2, N, D, certs, _, _ex) in recs:
+        for (n1, n2, N, D, certs, _, _ex, _uq) in recs:
             def cc(c):
                 if c is None:
                     return "[]"
@@ -213,7 +267,6 @@ for i1, s1 in enumerate(PROPER):
             rows.append(f'  mkRC "{n1}" "{n2}"\n    [' + "; ".join(coq_q(q) for q in N) + "]\n    [" +
                         "; ".join(coq_q(q) for q in D) + "]\n    " + cs)
         f.write(";\n".join(rows) + "].\n")
-    files.append(fn)
     # ---- existence certificates, same order
     with open(os.path.join(OUT, f"RegionExist{i1:02d}.v"), "w") as f:
         f.write("(* GENERATED by tools/impl/c05cert.py by running orix from /repo -- do not edit. *)\n")
@@ -231,7 +284,33 @@ for i1, s1 in enumerate(PROPER):
                         "; ".join("None" if i is None else f"Some {i}%nat" for i in lc) + "]\n    [" +
                         "; ".join(f"({i}%nat, {j}%nat)" for i, j in W) + "]\n    " + c07cert.coq_tree(tree))
         f.write(";\n".join(rows) + "].\n")
+    with open(os.path.join(OUT, f"RegionUniq{i1:02d}.v"), "w") as f:
+        f.write("(* GENERATED by tools/impl/c05cert.py by running orix from /repo -- do not edit. *)\n")
+        f.write("From Coq Require Import ZArith QArith List String.\nFrom Verif Require Import Scalar KField Quat CertCheck UniqCheck.\n")
+        f.write("Import ListNotations. Open Scope string_scope.\n")
+        f.write(f"Definition region_uniq_{i1:02d} : list (option (list (list (nat * K) * list (nat * K)))) := [\n")
+        rows = []
+        for r in recs:
+            uq = r[7]
+            if uq is None:
+                rows.append("  None")
+                continue
+            def cc(c):
+                return "[" + "; ".join(f"({j}%nat, {l.coq()})" for j, l in c) + "]"
+            rows.append("  Some [" + ";\n    ".join(f"({cc(a)}, {cc(b)})" for a, b in uq) + "]")
+        f.write(";\n".join(rows) + "].\n")
     json.dump([{"l": r[0], "r": r[1], "N": r[5]} for r in recs], open(os.path.join(OUT, f"region_normals_{i1:02d}.json"), "w"))
+
+    return fn, summary
+
+
+import multiprocessing  # noqa: E402
+with multiprocessing.Pool(min(len(PROPER), max(1, (os.cpu_count() or 4) - 2))) as pool:
+    results = pool.map(do_group, range(len(PROPER)))
+for fn, part in results:
+    files.append(fn)
+    for k, v in part.items():
+        summary[k] = summary[k] + v
 
 with open(os.path.join(OUT, "RegionCertsAll.v"), "w") as f:
     f.write("(* GENERATED by tools/impl/c05cert.py -- do not edit. *)\nFrom Coq Require Import List.\nImport ListNotations.\n")
